@@ -293,6 +293,49 @@ def w_e2e(job):
                               "expected": _fmt(want), "observed": detail})
     return n, nontriv, fails, counts, outcomes
 
+def w_pairs(job):
+    """Two operators on the SAME operand types in ONE module: `first` uses an operator the rule table accepts, `f` any other
+    operator; the decision on the module and the type of f's result must be those of f's operator alone."""
+    from nsl import LinearIR as IR
+
+    lo, hi = job
+    fails, counts, outcomes = [], {}, {}
+    n = nontriv = 0
+    for idx in range(lo, hi):
+        L, R = SPELL[idx // 14], SPELL[idx % 14]
+        for op1 in BINOPS:
+            w1 = oracle(op1, L, R)
+            if w1[0] != "accept":
+                continue
+            for op2 in BINOPS:
+                if op2 == op1:
+                    continue
+                want = oracle(op2, L, R)
+                n += 1
+                if want[0] == "unspec":
+                    continue
+                nontriv += 1
+                rt = want[1] if want[0] == "accept" else L
+                src = (f"export function first({show(L)} a, {show(R)} b) -> {show(w1[1])} {{ return a {op1} b; }}\n"
+                       f"export function f({show(L)} a, {show(R)} b) -> {show(rt)} {{ return a {op2} b; }}\n")
+                res = compile_src(src)
+                outcomes[res.status] = outcomes.get(res.status, 0) + 1
+                kind, detail = None, res.cls() + " " + (res.msg or "")
+                if want[0] == "reject":
+                    if res.status in ("ok", "internal"):
+                        kind = "accepted-must-reject"
+                elif res.status != "ok":
+                    kind = "rejected-must-accept"
+                else:
+                    ret = [i for i in res.module.Functions["f"].Instructions if isinstance(i, IR.ReturnInstruction)][0]
+                    if ir_type(ret.Value.Type) != want[1]:
+                        kind, detail = "wrong-result-type", f"returned value has IR type {show(ir_type(ret.Value.Type))}"
+                if kind:
+                    key = f"C09|pairs|{kind}|op={opclass(op2)}-after-{opclass(op1)}|{shape_class(L)},{shape_class(R)}"
+                    counts[key] = counts.get(key, 0) + 1
+                    if counts[key] <= 2:
+                        fails.append({"key": key, "part": "pairs", "op": op2, "first_op": op1, "left": L, "right": R, "source": src, "expected": _fmt(want), "observed": detail})
+    return n, nontriv, fails, counts, outcomes
 
 
 def rejob(x):
@@ -315,6 +358,8 @@ def run(tier, seed):
     te = 13 * 14 * 14
     for lo in range(0, te, 80):
         jobs.append((w_e2e, (lo, min(te, lo + 80))))
+    for lo in range(0, 14 * 14, 7):
+        jobs.append((w_pairs, (lo, lo + 7)))
     rot = seed % len(jobs) if seed else 0
     jobs = jobs[rot:] + jobs[:rot]
     res = pool.pmap(_dispatch, jobs)
@@ -347,7 +392,7 @@ def run(tier, seed):
            "rule": "complete: all 13 x 63 x 63 (operator, left, right) triples of the internal type universe (3 component types x "
                    "{scalar, vector 1-4, matrix 1-4 x 1-4}) through types.ResolveBinaryExpressionType, and all 13 x 14 x 14 spellable "
                    "triples end to end (compile decision, IR type of the returned value and of the operation's operands, overload "
-                   "selected by probe(a OP b) on the VM) against a rule table transcribed from the statement. Non-trivial = triples "
+                   "selected by probe(a OP b) on the VM) against a rule table transcribed from the statement; plus, for every spellable pair of operand types, every ordered pair of different operators in ONE module (the first one accepted by the table): the decision and result type of the second must not depend on the first. Non-trivial = triples "
                    "the statement specifies (not UNSPECIFIED: 1-component vectors, matrix comparison, vector x matrix, single-column "
                    "matrix products).",
            "samples": samples, "exhaustive": True, "bound": {"interface_triples": total, "e2e_triples": te},
@@ -359,7 +404,11 @@ def run(tier, seed):
 
 def replay(rec, verbose=True):
     L, R = tuple(rec["left"]), tuple(rec["right"])
-    if rec["part"] == "interface":
+    if rec["part"] == "pairs":
+        idx = SPELL.index(L) * 14 + SPELL.index(R)
+        _, _, fl, _, _ = w_pairs((idx, idx + 1))
+        fl = [f for f in fl if f["key"] == rec["key"]]
+    elif rec["part"] == "interface":
         idx = BINOPS.index(rec["op"]) * 63 * 63 + universe().index(L) * 63 + universe().index(R)
         _, _, fl, _, _ = w_interface((idx, idx + 1))
     else:
